@@ -163,6 +163,9 @@ func devModuleText(name string, imports [][2]string, devs []Deviation) string {
 	for _, im := range imports {
 		fmt.Fprintf(&sb, "  import %s { prefix %s; }\n", im[0], im[1])
 	}
+	// typedefs of the deviating module itself, usable as replacement types: with units and a default,
+	// derived from that one, and without either
+	sb.WriteString("  typedef dtu { type string; units seconds; default 5; }\n  typedef dtc { type dtu; }\n  typedef dtn { type int8; }\n")
 	// one reference leaf per replacement type used here: its record shows how that type is dumped
 	seen := map[string]bool{}
 	for _, d := range devs {
@@ -187,8 +190,12 @@ func devModuleText(name string, imports [][2]string, devs []Deviation) string {
 	return sb.String()
 }
 
-// C08KnownType: the replacement types the generator uses that resolve (built-ins).
+// C08KnownType: the replacement types the generator uses that resolve: built-ins, the typedefs every
+// deviating module defines (dtu, dtc, dtn), and prefixed references to typedefs of imported modules.
 func C08KnownType(t string) bool {
+	if t == "dtu" || t == "dtc" || t == "dtn" || strings.Contains(t, ":") {
+		return true
+	}
 	for _, x := range leafTypes {
 		if x == t {
 			return true
@@ -198,7 +205,7 @@ func C08KnownType(t string) bool {
 }
 
 // C08TypeRefLeaf is the name of the reference leaf of type t in a deviating module.
-func C08TypeRefLeaf(t string) string { return "zt-" + t }
+func C08TypeRefLeaf(t string) string { return "zt-" + strings.ReplaceAll(t, ":", "..") }
 
 // ---------------------------------------------------------------------------------------------
 // exhaustive part
@@ -517,6 +524,65 @@ func C08Exhaustive() []C08Case {
 	out = append(out, c08TypedefCases()...)
 	out = append(out, c08EmptyStringCases()...)
 	out = append(out, c08SubmoduleCases()...)
+	out = append(out, c08TypeOnlyCases()...)
+	return out
+}
+
+// c08TypeOnlyCases: a deviate that names only `type` changes only the type.  The replacement types
+// carry units and a default of their own (typedef of the deviating module, derived from it, typedef of
+// the deviated module directly and through a chain, typedef of a third module): those are properties of
+// the TYPE and stay there; the target's units and default are what they were.  Ordered pairs with
+// units / default statements before and after, and both in one statement (the written one wins).
+func c08TypeOnlyCases() []C08Case {
+	var out []C08Case
+	cText := "module c {\n  namespace \"urn:c\";\n  prefix c;\n  typedef tdi { type string; default idv; units iu; }\n}\n"
+	base := func(target string) string {
+		return "module b {\n  namespace \"urn:b\";\n  prefix b;\n  import c { prefix c; }\n" +
+			"  typedef td1 { type string; default tdv; units tu; }\n  typedef td2 { type td1; }\n" +
+			"  leaf s0 { type td1; }\n" + target + "  container s3 { leaf y { type td2; } }\n}\n"
+	}
+	one := func(combo, target string, stmts ...DevStmt) {
+		devs := []Deviation{{Module: "dv", Arg: "/b:t", Target: "/b/t", TargetMod: "b", Stmts: stmts}}
+		c := C08Case{Label: combo, Combo: combo, BaseNames: []string{"c.yang", "b.yang"}, BaseTexts: []string{cText, base(target)},
+			Devs: devs, DevMods: []string{"dv"}}
+		c.DevNames = []string{"dv.yang"}
+		c.DevTexts = []string{devModuleText("dv", [][2]string{{"b", "b"}, {"c", "c"}}, devs)}
+		out = append(out, c)
+	}
+	st := func(kind string, pv ...string) DevStmt {
+		s := NewDevStmt(kind)
+		for i := 0; i+1 < len(pv); i += 2 {
+			s.Set(pv[i], pv[i+1])
+		}
+		return s
+	}
+	targets := map[string]string{
+		"leaf":         "  leaf t { type string; }\n",
+		"leaf-default": "  leaf t { type string; default own; }\n",
+		"leaf-typedef": "  leaf t { type td2; }\n",
+		"leaf-list":    "  leaf-list t { type string; default a; default b; }\n",
+	}
+	for _, tn := range []string{"leaf", "leaf-default", "leaf-typedef", "leaf-list"} {
+		target := targets[tn]
+		for _, ty := range []string{"dtu", "dtc", "dtn", "b:td1", "b:td2", "c:tdi", "int8"} {
+			tag := fmt.Sprintf("type-only/%s/%s", tn, strings.ReplaceAll(ty, ":", "_"))
+			for _, k := range []string{"add", "replace"} {
+				one(tag+"/"+k, target, st(k, "type", ty))
+				one(tag+"/units-then-"+k, target, st("add", "units", "ms"), st(k, "type", ty))
+				one(tag+"/"+k+"-then-units", target, st(k, "type", ty), st("add", "units", "ms"))
+				one(tag+"/"+k+"-with-units", target, st(k, "type", ty, "units", "ms"))
+			}
+			one(tag+"/default-then-replace", target, st("replace", "default", "q"), st("replace", "type", ty))
+			one(tag+"/replace-then-default", target, st("replace", "type", ty), st("replace", "default", "q"))
+			one(tag+"/replace-with-default", target, st("replace", "type", ty, "default", "q"))
+			one(tag+"/replace-then-delete-units", target, st("replace", "type", ty), st("delete", "units", "seconds"))
+			one(tag+"/replace-twice", target, st("replace", "type", ty), st("replace", "type", "dtn"))
+			if tn == "leaf" {
+				one(tag+"/replace-then-delete-type-default", target, st("replace", "type", ty), st("delete", "default", "5"))
+				one(tag+"/replace-then-add-default", target, st("replace", "type", ty), st("add", "default", "q"))
+			}
+		}
+	}
 	return out
 }
 
@@ -860,6 +926,11 @@ func C08Random(r *rand.Rand) C08Case {
 		}
 	}
 	sort.SliceStable(tgts, func(i, j int) bool { return tgts[i].dump < tgts[j].dump })
+	types := append([]string{}, c08TypesBase...)
+	for _, im := range imports {
+		mn := strings.ReplaceAll(im[0], "-", "_")
+		types = append(types, im[1]+":zd_"+mn, im[1]+":zc_"+mn)
+	}
 	nm := 1 + r.Intn(2)
 	mods := []string{"dva", "dvb"}[:nm]
 	if nm == 2 && g.chance(0.5) {
@@ -889,7 +960,7 @@ func C08Random(r *rand.Rand) C08Case {
 				d.Arg, d.Target, d.TargetMod = t.arg, t.dump, t.mod
 				ns := 1 + r.Intn(3)
 				for j := 0; j < ns; j++ {
-					d.Stmts = append(d.Stmts, g.c08Stmt(t.kw, t.n))
+					d.Stmts = append(d.Stmts, g.c08Stmt(t.kw, t.n, types))
 				}
 			}
 			c.Devs = append(c.Devs, d)
@@ -942,7 +1013,7 @@ func C08Random(r *rand.Rand) C08Case {
 				}
 				ns := 1 + r.Intn(2)
 				for j := 0; j < ns; j++ {
-					s := g.c08Stmt(t.kw, t.n)
+					s := g.c08Stmt(t.kw, t.n, types)
 					if s.Type != "-" {
 						// (no reference leaf for replacement types outside the deviating modules)
 						s.Type = "-"
@@ -961,7 +1032,12 @@ func C08Random(r *rand.Rand) C08Case {
 	return c
 }
 
-func (g *genr) c08Stmt(kw string, n *Node) DevStmt {
+// c08Types: the replacement types of the random part (set by C08Random before it draws statements):
+// built-ins, the deviating module's own typedefs, and the zd_/zc_ typedefs of the imported base modules
+// (c08AddTypedefDefaults), which carry units and a default.
+var c08TypesBase = append(append([]string{}, leafTypes...), "dtu", "dtc", "dtn", "dtu", "dtc")
+
+func (g *genr) c08Stmt(kw string, n *Node, types []string) DevStmt {
 	kind := g.pick([]string{"add", "replace", "delete", "add", "replace", "delete", "add", "replace", "delete", "not-supported"})
 	if g.chance(0.005) {
 		kind = "bogus"
@@ -1003,7 +1079,7 @@ func (g *genr) c08Stmt(kw string, n *Node) DevStmt {
 		case "units":
 			v = g.pick([]string{"u1", "u2", "u1", "u2", ""})
 		case "type":
-			v = g.pick(leafTypes)
+			v = g.pick(types)
 		}
 		if fit && j == 0 && (p == "units" || p == "type") {
 			// the schema tree records no units of its own; a leaf always has a type
